@@ -632,10 +632,12 @@ func (s stateTableDriver) drive(c driverContext, ac *aatApplyContext) {
 			range_ := lastRange
 			if s.buffer.idx < len(s.buffer.Info) {
 				cluster := s.buffer.cur(0).Cluster
-				for cluster < ac.rangeFlags[range_].clusterFirst {
+				// the ranges cover the cluster values from 0 : a client cluster out of
+				// them (which may be negative) uses the closest range
+				for range_ > 0 && cluster < ac.rangeFlags[range_].clusterFirst {
 					range_--
 				}
-				for cluster > ac.rangeFlags[range_].clusterLast {
+				for range_+1 < len(ac.rangeFlags) && cluster > ac.rangeFlags[range_].clusterLast {
 					range_++
 				}
 
@@ -1236,10 +1238,10 @@ func (c *aatApplyContext) applyNonContextualSubtable(data font.MorxNonContextual
 		if lastRange != -1 {
 			range_ := lastRange
 			cluster := info[i].Cluster
-			for cluster < c.rangeFlags[range_].clusterFirst {
+			for range_ > 0 && cluster < c.rangeFlags[range_].clusterFirst {
 				range_--
 			}
-			for cluster > c.rangeFlags[range_].clusterLast {
+			for range_+1 < len(c.rangeFlags) && cluster > c.rangeFlags[range_].clusterLast {
 				range_++
 			}
 
